@@ -20,7 +20,7 @@ git stash push -q -- src
 CARGO_TARGET_DIR=$T cargo test --offline --test seeded_demo 2>&1 | grep "^test result" | sed 's/^/demo without change: /' >> $res
 git stash pop -q
 cat $res
-cd /verif
+cd ${VERIF_ROOT:-/verif}
 git -C /repo status --short | grep -q . && { echo "/repo dirty, abort"; exit 2; }
 git -C /repo apply $out/patch.diff || { echo "patch does not apply to /repo"; exit 2; }
 for p in $props; do
